@@ -61,6 +61,16 @@ func c15Options() []rigOpts {
 									o.agentCloseErr, o.connCloseErr = errInjectedAgentClose, &net.OpError{Op: "close", Net: "udp", Err: errInjectedAgentClose}
 								}
 								out = append(out, o)
+								if ncc && errMode == 0 && rtoMode == 0 {
+									o2 := o
+									o2.noConnCloseN = 2 + len(out)%2
+									out = append(out, o2)
+								}
+								if !defAgent && errMode == 1 && rtoMode == 0 {
+									o3 := o
+									o3.agentKeeps = true
+									out = append(out, o3)
+								}
 							}
 						}
 					}
@@ -87,9 +97,14 @@ func c15Script(c *core.Ctx, o rigOpts, variant int) {
 	t0 := r.newTx("Start", seqTID(0), 24)
 	_ = r.start(t0)
 	t1 := r.newTx("Do", seqTID(1), 28)
-	pre := r.conn.NWrites()
-	go func() { _ = r.do(t1) }()
-	waitFor(func() bool { return t1.returned() || r.conn.NWrites() > pre })
+	if o.agentKeeps {
+		t1.Kind = "Start" // an agent that cannot shut down never ends its transactions: no Do is left waiting for one
+		_ = r.start(t1)
+	} else {
+		pre := r.conn.NWrites()
+		go func() { _ = r.do(t1) }()
+		waitFor(func() bool { return t1.returned() || r.conn.NWrites() > pre })
+	}
 	if variant&1 == 1 {
 		r.deliver(seqTID(0), response(seqTID(0), "c15"), true)
 	}
@@ -113,8 +128,12 @@ func c15Script(c *core.Ctx, o rigOpts, variant int) {
 	}
 	// calls after Close
 	writesBefore := r.conn.NWrites()
-	for _, kind := range []string{"Start", "Do", "Indicate"} {
-		t := r.newTx(kind, seqTID(3), 20)
+	for ki, kind := range []string{"Start", "Do", "Indicate", "Start", "Do"} {
+		id := seqTID(3)
+		if ki >= 3 {
+			id = seqTID(2) // the id of a transaction that was in flight when Close was called
+		}
+		t := r.newTx(kind, id, 20)
 		var cerr error
 		if kind == "Do" {
 			cerr = r.do(t)
@@ -133,7 +152,7 @@ func c15Script(c *core.Ctx, o rigOpts, variant int) {
 		return
 	}
 	r.client.SetRTO(time.Second) // must be harmless after Close
-	if !waitFor(t1.returned) {
+	if !o.agentKeeps && !waitFor(t1.returned) {
 		fail("call-never-returned", "the pending Do did not return after Close")
 
 		return
